@@ -393,6 +393,12 @@ where
         let (a_, b_) = h.into_cartesian();
         let oklab_lightness = toe_inv(l);
 
+        // `toe_inv` rounds to exactly 1 for the lightness next below 1.
+        // `ChromaValues::from_normalized` divides by `1 - oklab_lightness`.
+        if oklab_lightness == T::one() {
+            return Oklab::new(T::one(), T::zero(), T::zero());
+        }
+
         let cs = ChromaValues::from_normalized(oklab_lightness.clone(), a_.clone(), b_.clone());
 
         // Interpolate the three values for C so that:
